@@ -239,6 +239,29 @@ impl Property for C13 {
         }
         let want: Vec<DFamily> = lib.iter().map(expect_family).collect();
         let must_fail = want.iter().any(|f| f.name.as_deref().unwrap_or("").is_empty() || f.metrics.is_empty());
+        // a call that fails part-way (a refused family after valid ones, or a writer that gives up) must not
+        // influence what a later successful call on the same thread writes
+        if !must_fail && !lib.is_empty() && src.chance(50) {
+            let mut poisoned = lib.clone();
+            let mut bad = MetricFamily::default();
+            bad.set_name("refused_family_without_samples".into());
+            poisoned.push(bad);
+            let mut sink = Vec::new();
+            let r0 = ProtobufEncoder::new().encode(&poisoned, &mut sink);
+            ensure!(r0.is_err(), "nameless-or-empty-family-accepted", "a batch ending in a family without samples was accepted");
+            struct Full;
+            impl std::io::Write for Full {
+                fn write(&mut self, _: &[u8]) -> std::io::Result<usize> {
+                    Err(std::io::Error::new(std::io::ErrorKind::Other, "full"))
+                }
+                fn flush(&mut self) -> std::io::Result<()> {
+                    Ok(())
+                }
+            }
+            let r1 = ProtobufEncoder::new().encode(&lib, &mut Full);
+            ensure!(r1.is_err(), "writer-error-swallowed", "encode into a writer that refuses every write returned Ok");
+            rep.class("after-a-failed-encode-on-this-thread");
+        }
         let mut buf = Vec::new();
         let r = ProtobufEncoder::new().encode(&lib, &mut buf);
         if must_fail {
